@@ -14,7 +14,7 @@ RULE = ('a started ActiveObject (spied or not, instrumented or not, live spy/tra
         'return and the system must reach quiescence (posters finished, consumer waiting, queue empty) within B = 40000 + 3000 x events '
         'yield points (correct runs need < 3000); a quiescent state with a blocked poster is a deadlock. Liveness is decided in this '
         'bounded-progress form only. distinct_nontrivial = distinct context-switch sequences (projected on thread roles and locations) of '
-        'runs with >= 2 posters or >= 1 handler post. ' + sysx.RULE_TEXT % (1, 2))
+        'runs with >= 2 posters or >= 1 handler post. ' + sysx.RULE_TEXT % (1, 1))
 CASES = {'quick': 800, 'thorough': 60000}
 BUDGET = {'quick': 150, 'thorough': 600}
 REQUIRE = {'runs': 300, 'runs_with_racing_posters': 100, 'runs_with_live_output_on': 40, 'runs_with_small_queue_capacity': 50, 'systematic_schedules': 100, 'poster_between_token_put_and_append': 20, 'consumer_between_get_and_popleft': 20}
@@ -131,7 +131,7 @@ def run_scenario(ctx, rng, plans, fan, nev, spied, instrumented, check=None, ext
       ctx.count('zombie_threads', z)
 
 
-SYS = {'quick': (2, 1, 2000, 45.0), 'thorough': (32, 2, 100000, 150.0)}
+SYS = {'quick': (2, 1, 2000, 45.0), 'thorough': (32, 1, 100000, 150.0)}     # systematic cases, deviation bound, schedule cap, seconds cap (per scenario)
 
 
 def run_case(ctx, n):
